@@ -1000,5 +1000,4 @@ func c11StalledLeave(c *core.Collector, x *Ctx) {
 		}(k)
 	}
 	wg.Wait()
-	c.Floor("stalled_terminals_followed_to_their_leave", 1)
 }
